@@ -44,6 +44,10 @@ CHECKS = {
    technique="deterministic simulation with fault injection on an ASan+UBSan build of the working-tree _fjcore.c: seeded knob swarm, adversarial byte-wise images, Memory-API operation sequences, device accesses at any 64-bit address, failing callbacks, and the k-th allocation failing (alloc shim), every death attributed to one case by re-running it alone",
    text="seeded exploration; the sanitizers are the invariant monitor (out-of-bounds, use-after-free, UB such as shifts and signed overflow), refcounts of the callbacks are compared before/after, and allocation-failure indices are enumerated per sampled run",
    note="trusted: gcc ASan/UBSan instrumentation at -O1 is representative of the -O2 build for memory errors; leaks, MSVC and 32-bit size_t are not covered"),
+ "C15": dict(engine="debugsim", category="exploration", design="5.9", timeout=(300, 2400),
+   technique="deterministic simulation of a two-party schedule: a seeded adaptive user takes turns with the featured loop at the prompt seam; the reference machine is advanced by the debugger protocol (breakpoints, armed step count, continue-all), which fixes the exact op indices of every pause; reads are decoded independently from the model memory",
+   text="seeded exploration of command histories (step, skip N, continue, continue-all, reads of every documented form, help, unknown, empty, quit, EOF, Ctrl-C at the prompt) x breakpoint sets (address, label, substring) x programs; the session must pause exactly at the predicted (count, ip) points, show true values, leave memory untouched and end like the undebugged run on all three engines",
+   note="trusted: reference machine; documented variable layout; a pause on an op whose flip word is unreadable may end with that memory error (named relaxation); <=300 ops and <=40 prompts per session"),
  "C18": dict(engine="enginesim", category="fault_enumeration", design="5.7", timeout=(300, 2400),
    technique="deterministic simulation with fault injection: the scripted device fails at every IO call index of each sampled run (library IO error, EOF, foreign exception, KeyboardInterrupt, BaseException, bad __bool__), plus pending-SIGINT injection at chosen bytecode instructions / IO calls; oracle = reference machine stopped at the micro-step",
    text="per sampled program the failing call index is enumerated completely (<=48 calls) with two fault kinds per index on native (flat/paged/ring), fast and featured; programs are sampled",
